@@ -314,8 +314,7 @@ def pickle_rules(model, R):
     # ids only name the registry entry: swapping both unpack and use is equivalent; swapping one is benign too (ids are cache keys)
     R.check(bool(ids), 'PICKLE', new, ids[0] if ids else new.node, 'Relation.__new__: unpickle path unpacks the two class ids', 'xid, yid = _ids')
     vr = model.func('matrices.Vectors.__reduce__')
-    r = [src(n.value) for n in walk(vr.body) if isinstance(n, ast.Return)]
-    R.check(r == ['(self.relation, (self.relation_index,))'], 'PICKLE', vr, vr.node, 'Vectors pickle as relation(index)', '(self.relation, (self.relation_index,))', str(r))
+    R.returns(vr, '(self.relation, (self.relation_index,))', 'PICKLE', 'Vectors pickle as relation(index)')
     rel = model.cls('matrices.Relation')
     R.check(src(rel.aliases.get('__call__')) == 'tuple.__getitem__', 'PICKLE', 'matrices.Relation.__call__', rel.node, 'relation(index) is item access',
             'tuple.__getitem__', src(rel.aliases.get('__call__')))
@@ -353,9 +352,7 @@ def pickle_rules(model, R):
     pair = model.cls('lattice_members.Pair')
     cr = pair.methods.get('__reduce__')
     if cr is not None:
-        r = [src(n.value) for n in walk(cr.body) if isinstance(n, ast.Return)]
-        R.check(r == ['(operator.getitem, (self.lattice, self.index))'], 'PICKLE', cr, cr.node, 'Concept pickles as lattice[index]',
-                '(operator.getitem, (self.lattice, self.index))', str(r))
+        R.returns(cr, '(operator.getitem, (self.lattice, self.index))', 'PICKLE', 'Concept pickles as lattice[index]')
     else:
         R.note('lattice_members.Pair has no __reduce__: a Concept pickled on its own is not a root of the PICKLE-DEPTH rule')
 
